@@ -25,6 +25,10 @@ type Opts struct {
 	MaxCrashEvents int
 	// RowsMatchAgglayer enables C02's clause (e): exactly one local row per height the Agglayer received.
 	RowsMatchAgglayer bool
+	// Contradictions adds the event AgglayerLosesLast (the Agglayer forgets its most recent
+	// certificate, then the node restarts): the only way the alphabet produces records that
+	// contradict the Agglayer's, so that "refuses to proceed" is exercised.
+	Contradictions bool
 	// Verbose evaluates the invariants and logs the state after EVERY event of the history (replay);
 	// otherwise that is done for the last event only: every proper prefix of an explored history is
 	// itself an explored history whose last event was checked.
@@ -205,14 +209,18 @@ func (x *Exec) restart(why string) {
 	x.node.close()
 	x.node = nil
 	x.k.crashAt, x.k.faultK = "", 0
+	desc, contradiction := x.localSituation() // what the restarting node finds, seen from outside
 	x.startNode()
-	x.C.Obs("restart (%s): start-up %s", why, map[bool]string{false: "completed", true: "did NOT complete (" + x.initStage + ")"}[x.initPending])
-	x.judgeRestart(why)
+	x.C.Obs("restart (%s; %s): start-up %s", why, desc, map[bool]string{false: "completed", true: "did NOT complete (" + x.initStage + ")"}[x.initPending])
+	x.judgeRestart(why, desc, contradiction)
 }
 
 // localSituation describes, from outside the node, how its last record relates to the Agglayer.
 func (x *Exec) localSituation() (desc string, contradiction bool) {
-	rows := ReadRows(x.k.ctl, "certificate_info")
+	var rows []LocalRow
+	if x.k.ctl != nil {
+		rows = ReadRows(x.k.ctl, "certificate_info")
+	}
 	maxH, any := x.Ag.MaxHeight()
 	for _, r := range rows {
 		if !x.Ag.Knows(r.ID) {
@@ -243,8 +251,7 @@ func (x *Exec) localSituation() (desc string, contradiction bool) {
 
 // judgeRestart is the C13 oracle for a restart: records contradict the Agglayer's <=> the node
 // refuses to proceed; otherwise bounded progress.
-func (x *Exec) judgeRestart(why string) {
-	desc, contradiction := x.localSituation()
+func (x *Exec) judgeRestart(why, desc string, contradiction bool) {
 	x.witness("restart/" + desc)
 	switch {
 	case contradiction && !x.initPending:
@@ -414,6 +421,13 @@ func (x *Exec) apply(ev string) {
 	case "Restart":
 		x.budgetUsed++
 		x.restart("a stop between two iterations")
+	case "AgglayerLosesLast":
+		x.budgetUsed++
+		if n := len(x.Ag.Entries); n > 0 {
+			x.C.Obs("the Agglayer forgets submission #%d", n-1)
+			x.Ag.Entries = x.Ag.Entries[:n-1]
+		}
+		x.restart("the Agglayer losing its most recent certificate")
 	case "LoseDB":
 		x.budgetUsed++
 		sit := "nothing"
@@ -431,9 +445,10 @@ func (x *Exec) apply(ev string) {
 			os.Remove(x.dbPath + suffix)
 		}
 		x.k.crashAt, x.k.faultK = "", 0
+		desc, contradiction := x.localSituation()
 		x.startNode()
-		x.C.Obs("certificate DB lost; restart: start-up %s", map[bool]string{false: "completed", true: "did NOT complete (" + x.initStage + ")"}[x.initPending])
-		x.judgeRestart("losing the certificate database")
+		x.C.Obs("certificate DB lost (%s); restart: start-up %s", desc, map[bool]string{false: "completed", true: "did NOT complete (" + x.initStage + ")"}[x.initPending])
+		x.judgeRestart("losing the certificate database", desc, contradiction)
 	default:
 		panic("senderkit: unknown event " + ev)
 	}
@@ -461,6 +476,9 @@ func (x *Exec) enabled() []string {
 	}
 	if x.Opt.Crashes && x.budgetUsed < x.Opt.MaxCrashEvents {
 		ev = append(ev, "Restart", "LoseDB")
+		if x.Opt.Contradictions && len(x.Ag.Entries) > 0 {
+			ev = append(ev, "AgglayerLosesLast")
+		}
 		// An iteration can submit only when nothing is undecided and something is unsent (a submission
 		// in any other state is already a violation found by the plain tick), so the crash points and
 		// storage faults of the send path are placed on those iterations only; a stop anywhere else is
